@@ -1169,8 +1169,8 @@ func TestVerifC03(t *testing.T) {
 		c03Child(t)
 		return
 	}
-	nhist := vw.Scale(24, 1200)
-	nlayer := vw.Scale(6, 100)
+	nhist := vw.Scale(48, 1200)
+	nlayer := vw.Scale(8, 100)
 	ncases := nhist + nlayer
 	caseID := func(i int) string {
 		if i >= nhist {
